@@ -565,7 +565,7 @@ fn malleability__structural_rearrangements_are_rejected() {
 // C12: PKE and header layers
 // ---------------------------------------------------------------------------
 
-// @obl props=C12,C14,C07 tier=quick fn=api::Covercrypt::encrypt shape="plaintext lengths 0..=40 and 4096; authorized and unauthorized key; every truncation; every single-byte change of the DEM ciphertext"
+// @obl props=C12,C13,C14,C07 tier=quick fn=api::Covercrypt::encrypt shape="plaintext lengths 0..=40 and 4096; authorized and unauthorized key; every truncation; every single-byte change of the DEM ciphertext"
 #[test]
 fn pke__roundtrip_truncation_and_tampering() {
     let cc = Covercrypt::default();
@@ -580,6 +580,15 @@ fn pke__roundtrip_truncation_and_tampering() {
         vchk!(got.as_deref().map(|v| &v[..]) == Some(&ptx[..]), "C12: an authorized key decrypts a {len}-byte plaintext to the exact plaintext");
         vchk!(PkeAc::<{ Aes256Gcm::KEY_LENGTH }, Aes256Gcm>::decrypt(&cc, &ko, &ctx).unwrap().is_none(), "C12: an unauthorized key gets 'not authorized'");
         vchk!(ctx.1.len() == len + 12 + 16, "C12: DEM ciphertext = nonce || ciphertext || tag");
+        // the DEM key is KDF(seed, "Covercrypt AE key") for the seed of the encapsulation (the pinned wire format): a ciphertext
+        // of the pinned release must keep decrypting, and a ciphertext made here must decrypt with that key
+        {
+            use cosmian_crypto_core::SymmetricKey;
+            let seed = cc.decaps(&ok, &ctx.0).unwrap().expect("C01: authorized");
+            let key = SymmetricKey::<32>::derive(&seed, b"Covercrypt AE key").unwrap_or_else(|_| panic!("kdf"));
+            let r = <Aes256Gcm as crate::traits::AE<32>>::decrypt(&key, &ctx.1);
+            vchk!(r.as_ref().map(|v| &v[..]).ok() == Some(&ptx[..]), "C12/C13: the DEM ciphertext of a {len}-byte plaintext does not open under KDF(seed, \"Covercrypt AE key\") (key derivation of the pinned format changed)");
+        }
         if len <= 40 {
             for t in 0..ctx.1.len() {
                 let cut = (ctx.0.clone(), ctx.1[..t].to_vec());
